@@ -65,11 +65,11 @@ func Register(key string, p *Pkg) { pkgs[key] = p }
 
 // HandlerCfg tells the glue handler what to return.
 type HandlerCfg struct {
-	Kind     string `json:"kind"`     // ok | plain | sebufError | validationError | custom | wrapped | nilnil
-	RespType string `json:"respType"` // full name of response (ok) or custom error message type
-	RespB64  string `json:"respB64"`  // binary proto of the response / custom error
-	Msg      string `json:"msg"`      // message for plain / sebufError
-	Viol     [][2]string `json:"viol"` // violations for validationError
+	Kind     string      `json:"kind"`     // ok | plain | sebufError | validationError | custom | wrapped | nilnil
+	RespType string      `json:"respType"` // full name of response (ok) or custom error message type
+	RespB64  string      `json:"respB64"`  // binary proto of the response / custom error
+	Msg      string      `json:"msg"`      // message for plain / sebufError
+	Viol     [][2]string `json:"viol"`     // violations for validationError
 	// Shared: the handler returns ONE response object per (type, bytes), the same pointer for every call
 	// (a handler that answers from a cache): marshalling a response must leave it as it was
 	Shared bool `json:"shared"`
@@ -77,20 +77,22 @@ type HandlerCfg struct {
 
 // Op is one operation of a plan.
 type Op struct {
-	Op      string      `json:"op"` // raw | call | codec | decode | mockcall
-	Case    int         `json:"case"`
-	Call    int         `json:"call"`
-	Pkg     string      `json:"pkg"`
-	ServerPkg string    `json:"serverPkg"` // for call: package hosting the server (default Pkg)
-	Verb    string      `json:"verb"`
-	URL     string      `json:"url"`
-	Headers [][2]string `json:"headers"`
+	Op        string      `json:"op"` // raw | call | codec | decode | mockcall
+	Case      int         `json:"case"`
+	Call      int         `json:"call"`
+	Pkg       string      `json:"pkg"`
+	ServerPkg string      `json:"serverPkg"` // for call: package hosting the server (default Pkg)
+	Verb      string      `json:"verb"`
+	URL       string      `json:"url"`
+	Headers   [][2]string `json:"headers"`
 	// header values that are not valid UTF-8 travel base64-encoded (JSON cannot carry them)
 	HeadersB64 [][2]string `json:"headersB64"`
-	BodyB64 string      `json:"bodyB64"`
-	NoBody  bool        `json:"noBody"`
-	Handler HandlerCfg  `json:"handler"`
-	Hook    string      `json:"hook"`
+	BodyB64    string      `json:"bodyB64"`
+	NoBody     bool        `json:"noBody"`
+	// how the body travels: "sized" (Content-Length), "chunked" (length unknown: ContentLength -1); default sized
+	Framing string     `json:"framing"`
+	Handler HandlerCfg `json:"handler"`
+	Hook    string     `json:"hook"`
 	// call
 	Svc        string     `json:"svc"`
 	Rpc        string     `json:"rpc"`
@@ -106,8 +108,8 @@ type Op struct {
 	ValB64  string `json:"valB64"`
 	JSONB64 string `json:"jsonB64"`
 	// scheduling
-	Group int `json:"group"` // ops with the same non-zero group run concurrently
-	Par   int `json:"par"`
+	Group int  `json:"group"` // ops with the same non-zero group run concurrently
+	Par   int  `json:"par"`
 	Fresh bool `json:"fresh"` // serve this op by a newly registered server (reference runs)
 }
 
@@ -437,6 +439,15 @@ func runRaw(st *opState) {
 		return
 	}
 	r.Body = body
+	if !op.NoBody {
+		// what net/http hands a handler: the announced length, or -1 for a chunked body
+		if op.Framing == "chunked" {
+			r.ContentLength = -1
+			r.TransferEncoding = []string{"chunked"}
+		} else {
+			r.ContentLength = int64(len(unb64(op.BodyB64)))
+		}
+	}
 	r.RequestURI = op.URL
 	for _, h := range op.Headers {
 		r.Header[http.CanonicalHeaderKey(h[0])] = append(r.Header[http.CanonicalHeaderKey(h[0])], h[1])
